@@ -1206,7 +1206,7 @@ def c18(ck):
             open(path, "wb").write(gbprog.rom_file_bytes(s))
             want_len = len(b'Loading "VERIFTEST"\n') + len(expected[s["id"]])
             # until the whole validated stream has been printed, then a moment more to see that nothing else follows
-            outb, rc, timed_out = vlib.run_until([exe, path], lambda b: len(b) >= want_len, deadline=30.0, settle=0.3)
+            outb, rc, timed_out = vlib.run_until_patient([exe, path], lambda b: len(b) >= want_len, deadline=30.0, settle=0.3)
             head = b'Loading "VERIFTEST"\n'
             want = head + bytes(expected[s["id"]])
             ck.count(1)
@@ -1268,7 +1268,7 @@ def c19(ck):
         # wait for the decisive output (probe marker after the loader's line, or the fallback banner), not for a clock
         def done(b):
             return (b.startswith(b'Loading "') and b'"\nK' in b) or b"No ROM, loading fallback" in b
-        outb, rc, timed_out = vlib.run_until([exe, path], done, deadline=30.0)
+        outb, rc, timed_out = vlib.run_until_patient([exe, path], done, deadline=30.0)
         os.remove(path)
         return c, outb, rc
     with ThreadPoolExecutor(max_workers=12) as ex:
